@@ -42,11 +42,20 @@ Section Rng.
     | EvSeedPy a :: EvSeedNp b :: tl => (a =? main) && (b =? main) && nested_ok main tl
     | _ => false
     end.
-  Definition seeding_ok (rs : option Z) (nth : option Z) (random_seed : Z) (tr : list seed_ev) : bool :=
+  (* helpers built WITH the main seed only (the grid back-end): no further draw may feed a seed *)
+  Fixpoint main_only (main : Z) (tr : list seed_ev) : bool :=
+    match tr with
+    | [] => true
+    | EvSeedPy a :: EvSeedNp b :: tl => (a =? main) && (b =? main) && main_only main tl
+    | _ => false
+    end.
+  (* strict = the class has no nested optimizers that draw their own seed (everything but populations and Powell) *)
+  Definition seeding_ok (strict : bool) (rs : option Z) (nth : option Z) (random_seed : Z) (tr : list seed_ev) : bool :=
     let n := match nth with Some n => n | None => 0 end in
+    let rest main tl := if strict then main_only main tl else nested_ok main tl in
     match rs, tr with
-    | Some s, EvSeedPy a :: EvSeedNp b :: tl => (a =? s + n) && (b =? s + n) && (random_seed =? s + n) && nested_ok (s + n) tl
-    | None, EvRandint v :: EvSeedPy a :: EvSeedNp b :: tl => (a =? v + n) && (b =? v + n) && (random_seed =? v + n) && nested_ok (v + n) tl
+    | Some s, EvSeedPy a :: EvSeedNp b :: tl => (a =? s + n) && (b =? s + n) && (random_seed =? s + n) && rest (s + n) tl
+    | None, EvRandint v :: EvSeedPy a :: EvSeedNp b :: tl => (a =? v + n) && (b =? v + n) && (random_seed =? v + n) && rest (v + n) tl
     | _, _ => false
     end.
 End Rng.
